@@ -105,6 +105,15 @@ def compare(ctx, obj, what, scale=None):
                      trace=obj.trace[-6:])
 
 
+def documented_real_if_negligible(got, want):
+    """`expectation` documents: "returns a float if the imaginary part is negligible" and decides with
+    np.isclose(imag, 0), i.e. |imag| <= 1e-8 ABSOLUTE.  A float result is therefore compared with the real part of the
+    reference whenever the reference's imaginary part is within that documented rule (matters for tiny amplitudes)."""
+    if not np.iscomplexobj(got) and abs(np.imag(want)) <= 1e-8:
+        return complex(got), complex(np.real(want))
+    return complex(got), complex(want)
+
+
 def run_case(ctx):
     from renormalizer.mps import MpDm
     rng = ctx.rng
@@ -123,9 +132,16 @@ def run_case(ctx):
     ctx.cls("qn-" + gm.desc["qn_mode"])
     pool = []
     full_trace = []
+    amp = 1.0
+    if rng.random() < 0.15:
+        # tiny / huge amplitudes carried by the tensors (every tolerance of the check is relative to the operands)
+        amp = float(rng.choice([1e-6, 1e-4, 1e5]))
+        ctx.cls("amplitude:tiny" if amp < 1 else "amplitude:huge")
     for _ in range(int(rng.integers(2, 5))):
         mps = ctx.lib(states.random_state, ctx, gm, model, qntot, what="state-constructor", promised=False)
         mps.compress_config = lossless_cfg()
+        if amp != 1.0:
+            mps.scale(amp, inplace=True)
         ref = states.dense_of(mps)
         tr = ["state"]
         f = ctx.lib(states.gauge_history, rng, mps, 4, tr, what="gauge-history")
@@ -138,6 +154,10 @@ def run_case(ctx):
     for _ in range(int(rng.integers(1, 4))):
         o, d = make_operator(ctx, gm, model)
         if o is not None:
+            if amp != 1.0 and rng.random() < 0.5:
+                o.mp.scale(amp, inplace=True)
+                o.ref = o.ref * amp
+                o.trace.append(f"scale({amp})")
             if rng.random() < 0.5:
                 f = ctx.lib(states.gauge_history, rng, o.mp, 2, o.trace, allow_coeff=False, what="gauge-history-mpo")
                 if not compare(ctx, o, "gauge-history-mpo"):
@@ -283,12 +303,12 @@ def run_case(ctx):
                     got = ctx.lib(a.mp.expectation, o.mp, what="expectation")
                     want = np.vdot(ta, o.ref @ ta)
                     ctx.count("oracle")
-                    ctx.close(got, want if abs(np.imag(want)) > 1e-300 or np.iscomplexobj(got) else np.real(want), 1e-10,
+                    ctx.close(*documented_real_if_negligible(got, want), 1e-10,
                               "expectation|mismatch", scale=max(float(np.linalg.norm(ta) ** 2 * np.linalg.norm(o.ref)), 1e-300))
                     got2 = ctx.lib(a.mp.expectation, o.mp, b.mp.conj(), what="expectation(bra)")
                     want2 = np.vdot(tb, o.ref @ ta)
                     ctx.count("oracle")
-                    ctx.close(complex(got2), complex(want2), 1e-10, "transition-amplitude|mismatch", scale=sc * max(float(np.linalg.norm(o.ref)), 1e-300))
+                    ctx.close(*documented_real_if_negligible(got2, want2), 1e-10, "transition-amplitude|mismatch", scale=sc * max(float(np.linalg.norm(o.ref)), 1e-300))
             continue
         elif kind == "conj_trans" and ops:
             o = ops[int(rng.integers(0, len(ops)))]
